@@ -8,6 +8,7 @@
 #ifdef NANO_VERIF
 
 #include <cstddef>
+#include <cstdint>
 #include <nano/arch.h>
 #include <type_traits>
 #include <vector>
@@ -56,6 +57,60 @@ void trace(const char* tag, const tvalues&... values)
 } // namespace nano::verif
 
 #define NANO_VERIF_TRACE(...) ::nano::verif::trace(__VA_ARGS__)
+
+///
+/// \brief hook H3: trace points in the round loop of the gradient boosting fit (src/gboost/model.cpp, result.cpp).
+///
+#define NANO_VERIF_GBOOST_TRACE 1
+
+namespace nano::verif
+{
+///
+/// \brief an object's address as a number (names an object while it is alive, e.g. a weak learner that is moved
+///     from the round loop into the result).
+///
+inline double identity(const void* object)
+{
+    return static_cast<double>(reinterpret_cast<std::uintptr_t>(object));
+}
+
+///
+/// \brief the addresses of the objects owned by a sequence of smart pointers.
+///
+template <class tpointers>
+std::vector<double> identities(const tpointers& pointers)
+{
+    std::vector<double> values;
+    for (const auto& pointer : pointers)
+    {
+        values.push_back(identity(pointer.get()));
+    }
+    return values;
+}
+
+///
+/// \brief installs the given observer in the calling thread for the lifetime of the object and restores the
+///     previous one afterwards: forwards the observer of the thread that calls a fit to the worker threads
+///     that fit the folds.
+///
+class scoped_trace_sink_t
+{
+public:
+    explicit scoped_trace_sink_t(const trace_sink_t sink)
+        : m_previous(trace_sink())
+    {
+        trace_sink() = sink;
+    }
+
+    scoped_trace_sink_t(const scoped_trace_sink_t&)            = delete;
+    scoped_trace_sink_t& operator=(const scoped_trace_sink_t&) = delete;
+
+    ~scoped_trace_sink_t() { trace_sink() = m_previous; }
+
+private:
+    trace_sink_t m_previous;
+};
+} // namespace nano::verif
 
 #else
 
